@@ -388,9 +388,9 @@ type work struct {
 	x     jp.Expr
 	texts [2]string
 	// eqn
-	e              *jp.Equation
-	sEq, sSc, sFl  string
-	buildPanic     string
+	e             *jp.Equation
+	sEq, sSc, sFl string
+	buildPanic    string
 }
 
 func (w *work) add(req string) int {
